@@ -174,6 +174,82 @@ pub fn maps() -> Vec<BTreeMap<String, Value>> {
     ]
 }
 
+/// A random value of the given type, NOT from the boundary pool: random magnitudes, scales, lengths and
+/// characters, so that faults confined to "ordinary" operands (a residue class, a scale difference, a string
+/// longer than some buffer) have a chance of being met.
+pub fn random_value(rng: &mut crate::rng::Rng, t: &str) -> Value {
+    match t {
+        "Int" => {
+            let bits = 1 + rng.below(127);
+            let mask = if bits >= 127 { i128::MAX } else { (1i128 << bits) - 1 };
+            let x = rng.i128() & mask;
+            Value::Int(if rng.chance(1, 2) { x } else { -x })
+        }
+        "Float" => match rng.below(4) {
+            0 => Value::Float(f64::from_bits(rng.next())),
+            1 => Value::Float((rng.range(-1_000_000, 1_000_000) as f64) / 8.0),
+            2 => Value::Float((rng.range(-100_000, 100_000) as f64) + 0.5),
+            _ => {
+                let m = rng.next() & ((1 << 52) - 1);
+                let e = (1023 - 60 + rng.below(120)) as u64;
+                Value::Float(f64::from_bits((e << 52) | m | ((rng.next() & 1) << 63)))
+            }
+        },
+        "Decimal" => {
+            let bits = 1 + rng.below(96);
+            let m = (rng.i128() as u128) & ((1u128 << bits) - 1);
+            let mut d = Decimal::from_i128_with_scale(m as i128, rng.below(29) as u32);
+            d.set_sign_negative(rng.chance(1, 2));
+            Value::Decimal(d)
+        }
+        "String" => {
+            let alphabet: Vec<char> = "abcXYZ019 _-.,:;/+\t\n\"'\\éßΣσςİıǅﬁ中\u{a0}\u{301}\u{1F600}".chars().collect();
+            let len = match rng.below(5) {
+                0 => rng.below(4),
+                1 | 2 => rng.below(24),
+                3 => 30 + rng.below(70),
+                _ => 200 + rng.below(400),
+            };
+            Value::String((0..len).map(|_| alphabet[rng.below(alphabet.len())]).collect())
+        }
+        "Bool" => Value::Bool(rng.chance(1, 2)),
+        "DateTime" => {
+            let secs = match rng.below(3) {
+                0 => rng.range(-8_334_601_228_800, 8_210_266_876_799),
+                1 => rng.range(-2_000_000_000, 4_000_000_000),
+                _ => rng.range(-62_135_596_800, 253_402_300_799), // years 1..9999
+            };
+            let nanos = if rng.chance(1, 2) { 0 } else { rng.below(1_000_000_000) as u32 };
+            Value::DateTime(DateTime::from_timestamp(secs, nanos).unwrap_or(DateTime::<Utc>::MIN_UTC))
+        }
+        "Duration" => {
+            let secs = match rng.below(3) {
+                0 => rng.range(-9_223_372_036_854_775, 9_223_372_036_854_775),
+                1 => rng.range(-10_000_000, 10_000_000),
+                _ => rng.range(-100, 100),
+            };
+            let d = TimeDelta::try_seconds(secs).unwrap_or(TimeDelta::zero());
+            let n = TimeDelta::nanoseconds(rng.range(-999_999_999, 999_999_999));
+            Value::Duration(d.checked_add(&n).unwrap_or(d))
+        }
+        "Vec" => {
+            let n = if rng.chance(1, 10) { 20 + rng.below(50) } else { rng.below(5) };
+            Value::Vec((0..n).map(|_| {
+                let t = *rng.pick(&["Int", "Float", "String", "Bool", "None", "Decimal"]);
+                random_value(rng, t)
+            }).collect())
+        }
+        "Map" => {
+            let n = if rng.chance(1, 10) { 17 + rng.below(30) } else { rng.below(5) };
+            Value::Map((0..n).map(|i| {
+                let t = *rng.pick(&["Int", "Float", "String", "Bool", "None"]);
+                (format!("{}{}", rng.pick(&["a", "b", "key", "K", "é"]), if rng.chance(1, 2) { i.to_string() } else { String::new() }), random_value(rng, t))
+            }).collect())
+        }
+        _ => Value::None,
+    }
+}
+
 pub struct Pool {
     pub all: Vec<Value>,
     /// index ranges per type name
